@@ -128,7 +128,33 @@ func runBac(termInfo, chipInfo, otherInfo, source string, seed int64, termRand f
 					if !genuine {
 						g = append(bacCryptogram(kEncC, kMacC, rndIc, make([]byte, 8), make([]byte, 16)), 0x90, 0x00)
 					}
-					g[rnd.Intn(40)] ^= 1 << uint(rnd.Intn(8))
+					// value-changing mutations of E_IC || M_IC: one bit; the same bit in two octets of one half (cancels
+					// under an XOR-folded comparison); two different octets exchanged; two bits of one octet
+					lo, n := 0, 32 // half: cryptogram or MAC
+					if rnd.Intn(2) == 0 {
+						lo, n = 32, 8
+					}
+					switch rnd.Intn(4) {
+					case 0:
+						g[rnd.Intn(40)] ^= 1 << uint(rnd.Intn(8))
+					case 1:
+						i := lo + rnd.Intn(n)
+						j := lo + (i-lo+1+rnd.Intn(n-1))%n
+						bit := byte(1) << uint(rnd.Intn(8))
+						g[i] ^= bit
+						g[j] ^= bit
+					case 2:
+						i := lo + rnd.Intn(n)
+						for k := 1; k < n; k++ {
+							j := lo + (i-lo+k)%n
+							if g[i] != g[j] {
+								g[i], g[j] = g[j], g[i]
+								break
+							}
+						}
+					case 3:
+						g[lo+rnd.Intn(n)] ^= 0x81
+					}
 					return g
 				case "wrongifd", "wrongic":
 					// a holder of the chip's keys that does not echo one of the challenges
